@@ -279,6 +279,16 @@ def replay_history(path):
 
 
 def replay_file(pid, path):
+    if path.endswith('.conc'):
+        m = re.search(r'#\s*cont=(\w+) n=(\d+) method=(\w+) mid=(\d+) kind=(\w+) prop=(\d+)', open(path).read())
+        exe = core.build_aux(m.group(5), m.group(1), int(m.group(2)), int(m.group(4)))
+        res = core.run_aux(exe)
+        print(res['out'][-3000:])
+        if 'ThreadSanitizer: data race' in res['out'] or 'NONLINEARIZABLE' in res['out']:
+            print('VIOLATION property=%s replay=%s' % (pid, path))
+            return 1
+        print('replay: no violation of %s reproduced' % pid)
+        return 0
     res = replay_history(path)
     print(res['out'])
     fails = [f for f in res['fails'] if f[0] // 1000 == res['prop']]
@@ -289,7 +299,141 @@ def replay_file(pid, path):
     return 0
 
 
+K3_ASSUMPTIONS = [
+    'instantiation: thread_safe::yes, key_type = value_type = uint64_t; one public call from any state satisfying the representation invariant',
+    'every load and store of the translated program (libcappuccino and vstd code) is instrumented (ir2c --instrument-access); the published '
+    'objects are the container and every heap object it allocated before the call; allocations made by the call itself (results, temporaries) are thread-local',
+    'declared construction-time constant: the size field of the fixed container that capacity() reads; the monitor asserts that no call writes it',
+    'range methods are run with a concrete range length (1 or 2 elements, duplicates allowed); keys, values, allow, peek, TTL, clock symbolic',
+    'the step from "all shared accesses of a call lie in one critical section of the single container mutex" to "linearizable / race free under every '
+    'schedule of any number of threads" is the standard atomicity (lockset) argument, not an enumeration of schedules',
+]
+
+
+def k3_queries(num, tier, only=None):
+    qs = []
+    for cont in plan.CONTAINERS:
+        if only and cont not in only:
+            continue
+        heavy = cont in ('lfu', 'lfuda', 'utmap', 'utset')
+        ns = [2] if tier == 'quick' else ([2, 3] if not heavy else [2])
+        for n in ns:
+            for m, mid in plan.k3_methods(cont):
+                rlen = 1 if (heavy and mid == 20 and tier == 'quick') else 2
+                to = TIERS[tier]['k2_timeout'] * (2 if mid >= 20 else 1)
+                for p in (7, 99):
+                    qs.append(plan.k3_query(cont, m, mid, n, p, rlen=rlen, timeout=to))
+    return qs
+
+
+def k3_relevant(num, key):
+    """which monitor assertions decide which property"""
+    if isinstance(key, int):
+        return key // 1000 == 7 and num == 6
+    if 'unwinding assertion' in key:
+        return False
+    if key.startswith('K3a') or key.startswith('K3b'):
+        return True
+    if key.startswith('K3c') or key.startswith('K3d'):
+        return num == 6
+    return False
+
+
+def run_concurrency(num, tier, seed, only=None):
+    ev = Evidence(num, tier, seed)
+    ev.assumptions = list(K3_ASSUMPTIONS)
+    pid = ev.pid
+    known, _ = load_known()
+    qs = k3_queries(num, tier, only)
+    ev.bounds = {'k3_capacities': sorted({q.meta['n'] for q in qs}), 'k3_range_length': sorted({q.meta['rlen'] for q in qs}),
+                 'k3_pre_state': 'any invariant state', 'threads_and_schedules': 'discharged by the atomicity argument, not enumerated',
+                 'outside': 'capacities above the listed ones, key/value types other than uint64_t, range lengths above 2, user-defined key/value '
+                            'types whose own operations call back into the container'}
+    sys.stderr.write('%s %s: %d K3 queries\n' % (pid, tier, len(qs)))
+    validate_translation(ev, sorted({q.meta['cont'] for q in qs}), seed, tier)
+    core.run_all(qs)
+    groups = {}
+    for q in qs:
+        groups.setdefault((q.meta['cont'], q.meta['method'], q.meta['n']), {})[q.meta['prop']] = q
+    violations = []
+    for key, g in sorted(groups.items()):
+        q, w = g[7], g[99]
+        ev.add_query(w, 'witness')
+        wit = witness_ok(ev, w)
+        ev.add_query(q, 'property')
+        r = q.result
+        ids = [k for k in r.asserts if k3_relevant(num, k)]
+        if r.status in ('pass', 'fail'):
+            bad = [k for k in ids if r.asserts[k] == 'FAILURE']
+            ev.obligations += max(1, len(ids))
+            if not bad:
+                if wit:
+                    ev.discharged += max(1, len(ids))
+                    ev.nontrivial.add(q.name)
+                continue
+            ev.discharged += len(ids) - len(bad)
+            # ---- replay on the real build
+            cont, method, n = key
+            mid = dict(plan.k3_methods(cont))[method]
+            kinds = sorted({str(b)[:3] for b in bad})
+            rep = None
+            if any(str(b).startswith('K3a') or str(b).startswith('K3b') for b in bad):
+                exe = core.build_aux('race', cont, 4, mid)
+                res = core.run_aux(exe)
+                raced = 'ThreadSanitizer: data race' in res['out']
+                info = {'kind': 'tsan two-thread driver', 'container': cont, 'method': method, 'rc': res['rc'], 'data_race_reported': raced,
+                        'tail': res['out'][-700:]}
+                ev.replays.append(info)
+                if raced:
+                    rep = ('race', res)
+            if rep is None and num == 6 and any(str(b).startswith('K3c') or isinstance(b, int) for b in bad):
+                exe = core.build_aux('sched', cont, 2, mid)
+                res = core.run_aux(exe)
+                nonlin = 'NONLINEARIZABLE' in res['out']
+                ev.replays.append({'kind': 'nested schedule at lock granularity', 'container': cont, 'method': method, 'rc': res['rc'],
+                                   'nonlinearizable': nonlin, 'tail': res['out'][-700:]})
+                if nonlin:
+                    rep = ('sched', res)
+            if rep is not None:
+                os.makedirs(os.path.join(ROOT, 'replays'), exist_ok=True)
+                path = os.path.join(ROOT, 'replays', '%s-%s-%s.conc' % (pid, cont, method))
+                open(path, 'w').write('# cont=%s n=%d method=%s mid=%d kind=%s prop=%d\n%s\n' % (cont, 4 if rep[0] == 'race' else 2, method, mid, rep[0], num, rep[1]['out'][-3000:]))
+                listed = [k for k in known if k['prop'] == pid and k['key'] == '%s:%s' % (cont, method)]
+                if listed:
+                    line = 'KNOWN-FINDING: property=%s %s [%s:%s; reproduced on the real build]' % (pid, listed[0]['what'], cont, method)
+                    print(line); ev.known.append(line)
+                else:
+                    violations.append((path, '%s.%s: monitor assertions %s fail; %s on the real build' % (
+                        cont, method, kinds, 'ThreadSanitizer reports a data race between this method and insert/erase' if rep[0] == 'race'
+                        else 'a nested schedule gives a result no sequential order explains')))
+            else:
+                msg = 'K3 %s: %s fail but neither a TSan race nor a non-linearizable nested schedule reproduced on the real build' % (q.name, [str(b)[:30] for b in bad[:4]])
+                ev.inconclusive.append(msg)
+                print('INCONCLUSIVE property=%s %s' % (pid, msg))
+        else:
+            ev.obligations += 1
+            ev.inconclusive.append('%s: %s %s' % (q.name, r.status, r.note[:200]))
+            if r.status == 'error':
+                raise core.ToolError('%s: %s' % (q.name, r.note))
+    for q in qs:
+        if len(ev.samples) < 8 and q.result.status == 'pass' and q.meta['prop'] == 7:
+            ev.samples.append({'query': q.name, 'cmd': ' '.join(q.cbmc_cmd()[3:]), 'checks': q.result.n_checks,
+                               'asserts': {str(k): v for k, v in list(q.result.asserts.items())[:6]}})
+    if not ev.samples:
+        ev.samples.append({'note': 'no passing query'})
+    rc = 0
+    for path, text in violations:
+        print('VIOLATION property=%s replay=%s' % (pid, path))
+        print('  ' + text)
+        ev.violations += 1
+        rc = 1
+    ev.write()
+    return rc
+
+
 def run_property(num, tier, seed, only=None):
+    if num in (6, 7):
+        return run_concurrency(num, tier, seed, only)
     ev = Evidence(num, tier, seed)
     ev.assumptions = list(COMMON_ASSUMPTIONS)
     cfg = TIERS[tier]
@@ -301,9 +445,28 @@ def run_property(num, tier, seed, only=None):
     known, _fixed = load_known()
     qs = k2_queries(num, tier, only) + k1_queries(num, tier, only)
     sys.stderr.write('%s %s: %d queries\n' % (pid, tier, len(qs)))
+    validate_translation(ev, sorted({q.meta['cont'] for q in qs}), seed, tier)
     core.run_all(qs)
     rc = finish(ev, num, tier, qs, known)
     return rc
+
+
+def validate_translation(ev, conts, seed, tier):
+    """section 4 of DESIGN.md: per-run differential of the encoding against the real library"""
+    from concurrent.futures import ThreadPoolExecutor
+    seeds = (seed + 1, seed + 2) if tier == 'quick' else (seed + 1, seed + 2, seed + 3, seed + 4)
+
+    def one(c):
+        return c, core.translation_validation(c, 3, seeds)
+    with ThreadPoolExecutor(max_workers=10) as ex:
+        res = list(ex.map(one, conts))
+    for c, r in res:
+        ev.traces_validated += r['lines']
+        if not r['identical']:
+            ev.notes.append('translation validation, %s: %s' % (c, r['note']))
+            if r['fatal']:
+                raise core.ToolError('translation validation failed for %s: both runs completed but differ (%s): the encoding cannot be trusted' % (c, r['note']))
+    ev.extra['translation_validation'] = {c: {'lines_identical': r['lines'], 'identical': r['identical']} for c, r in res}
 
 
 def finish(ev, num, tier, qs, known, extra_violations=()):
